@@ -27,6 +27,13 @@ P('C13','shared-state discipline (all schedules) + gate/ordering rules + interva
   "Decides that no per-request entry can write a shared route.Target (the 'simultaneous requests' clause, for every interleaving), that the redirect answer is behind the gates, uses the per-request location and is never followed by upstream contact, that Target.RedirectCode is in {0} ∪ [300,399] on every path of addTarget (interval-set analysis incl. the Atoi error edge), that $path/$host are replaced from the request URL with strip before prepend and the query copied only when the template has none, and that a skipped self-redirect cannot be returned. The text of the Location per template form is string content and is not decided.",
   COMMON_NOTE)
 
+P('C02','atomic-holder usage rules, publish-after-build, shared-state discipline, error-edge reachability (NEG) on the CFG, partial-operation guards (E3) with regexp capture-group folding',
+  "Decides on all paths and call sites: the active table is held in one atomic value used only via Load/Store in getter/setter/init; nothing writes a table after publication; no per-request entry writes a shared table/route/target; one snapshot per lookup; SetTable receives only constructor results and cannot be reached with a table from the constructor's error edge (or relies on nil-on-error + nil-ignored, both checked); the update loop's error edge keeps looping and does not advance the last-installed text; every partial operation reachable from the table constructors, the parsers and the lookup path (submatch/split indices, integer divisions, ring allocation, non-finite weights, MustCompile on the request path, nil definition list) is guarded. That glob/url/regexp themselves never panic is trusted.",
+  COMMON_NOTE)
+P('C04','must-pass-through (MPT) rules on the CFG incl. closure call sites, picker value-flow rules, branch-fact rules for the one-slot floor, non-zero divisor rules',
+  "Decides the structural necessary conditions of weighted distribution on every path: each mutator of Route.Targets / Target.FixedWeight rebuilds the ring before returning (count-guarded skip accepted), pickers select from the ring with the index taken from the atomic RMW result, a positive weight gets >= 1 slot and only positive weights do, zero-slot targets are skipped, ring arithmetic and allocation are guarded, weights are finite. The arithmetic claims (weights sum to one, share within 1/10000, proportional scaling) range over floating-point values and are not decided.",
+  COMMON_NOTE)
+
 checks=[]; na=[]
 for p in props:
     id=p['id']
